@@ -208,6 +208,10 @@ def run_check(check, tier, seed, replay=None):
     cpu = []
     executor = cf.ThreadPoolExecutor(max_workers=8)
     harness_errors = []
+    anchor_files = anchor_files_of(pid)
+    reach_every = 15
+    reach_ctr = [0]
+    reach_hits = {}
     try:
         batch = []
         batch_runs = 0
@@ -219,6 +223,9 @@ def run_check(check, tier, seed, replay=None):
             specs = []
             for c in batch:
                 for r in c['runs']:
+                    reach_ctr[0] += 1
+                    if anchor_files and reach_ctr[0] % reach_every == 1 and r.get('mode', 'cli') == 'cli':
+                        r = dict(r, probes=list(r.get('probes') or []) + ['reach'], reach_files=anchor_files)
                     specs.append(r)
             outs = _run_all(pools, specs)
             k = 0
@@ -237,6 +244,10 @@ def run_check(check, tier, seed, replay=None):
                     for pn, pv in (o.get('probes') or {}).items():
                         if pn == '_unavailable':
                             unavailable.update(pv)
+                            continue
+                        if pn == 'reach':
+                            for f_, ls_ in (pv.get('lines') or {}).items():
+                                reach_hits.setdefault(f_, set()).update(ls_)
                             continue
                         probe_events[pn] = probe_events.get(pn, 0) + _probe_count(pn, pv)
                     if r.get('mode', 'cli') == 'cli' and every and (n_runs % every == 0):
@@ -376,6 +387,7 @@ def run_check(check, tier, seed, replay=None):
         'violation_signatures': [v.sig for v, _, _ in report],
         'median_cpu_s': sorted(cpu)[len(cpu) // 2] if cpu else None,
         'repo': runner.repo_root(),
+        'anchor_reach': anchor_reach_summary(reach_hits, anchor_files),
         'exit_status': rc,
     }
     cov.update(check.extra_evidence() or {})
@@ -393,6 +405,47 @@ def run_check(check, tier, seed, replay=None):
     print(f'{pid} tier={tier} seed={seed}: runs={n_runs} cases={n_cases} verdicts={stats} distinct_nontrivial={len(nt)} '
           f'cli_crosschecked={cross["checked"]} known={known_hits} wall={wall:.1f}s exit={rc}')
     return rc
+
+
+def anchor_files_of(pid):
+    """The source files the property is anchored in (properties.jsonl), as path suffixes for the reach probe."""
+    try:
+        for line in open(os.path.join(VERIF_ROOT, 'properties.jsonl')):
+            p = json.loads(line)
+            if p['id'] == pid:
+                return [f[len('src/'):] if f.startswith('src/') else f for f in p['anchors']['files'] if f.startswith('src/')]
+    except Exception:
+        pass
+    return []
+
+
+def anchor_reach_summary(hits, anchor_files):
+    """per anchor file: lines executed under this run's workload (sampled runs) / executable lines of the file"""
+    res = {}
+    root = os.path.join(runner.repo_root(), 'src')
+    for f, lines in sorted(hits.items()):
+        rel = f[len('src/'):] if f.startswith('src/') else f
+        path = os.path.join(root, rel)
+        try:
+            code = compile(open(path).read(), path, 'exec')
+        except Exception:
+            continue
+        ex = set()
+
+        def walk(c):
+            for _, _, ln in c.co_lines():
+                if ln is not None and ln > 0:
+                    ex.add(ln)
+            for k in c.co_consts:
+                if hasattr(k, 'co_lines'):
+                    walk(k)
+        walk(code)
+        hit = set(lines) & ex
+        res[rel] = {'lines_hit': len(hit), 'executable_lines': len(ex)}
+    if res:
+        res['_note'] = ('lines executed inside functions of the anchor files during sampled runs (1 in 15); module-level lines '
+                        'run at import time in the zygote and are not counted')
+    return res
 
 
 def runner_harness_exit():
